@@ -4,13 +4,16 @@
 # worktree variant (tools_seedcheck_wt.sh), which leaves /repo untouched.
 tool=/verif/tools_seedcheck.sh
 [ "$SEEDCHECK" = wt ] && tool=/verif/tools_seedcheck_wt.sh
+# SEEDS="C01 C02" restricts the run to the seeds of these properties.
 for d in /verif/seeded/C*/; do
+  if [ -n "$SEEDS" ]; then case " $SEEDS " in *" $(basename $d | cut -c1-3) "*) ;; *) continue;; esac; fi
   n=$(basename $d); prop=$(echo $n | cut -c1-3)
   r=$($tool $prop $d/patch.diff quick 2>&1 | grep -E "^VIOLATION|exit=" | tr '\n' ' ' | cut -c1-160)
   echo "$n $r"
 done
 for f in /verif/seeded/reverted-fixes/*.diff; do
   prop=$(basename $f | cut -d- -f1)
+  if [ -n "$SEEDS" ]; then case " $SEEDS " in *" $prop "*) ;; *) continue;; esac; fi
   r=$($tool $prop $f quick 2>&1 | grep -E "^VIOLATION|exit=" | tr '\n' ' ' | cut -c1-160)
   echo "revert-$(basename $f .diff) $r"
 done
